@@ -286,14 +286,39 @@ def _hand(case):
     return rhs
 
 
+class _TooManySteps(Exception):
+    pass
+
+
 def _reference_solution(case):
+    """end point of the SI reference trajectory, or None when the system is not integrable with moderate
+    effort (finite-time blow-up of autocatalytic systems, > 50000 right-hand-side evaluations, values beyond
+    20 x the largest initial concentration or negative)"""
     from scipy.integrate import solve_ivp
     rhs = _hand(case)
     c0 = [case["c_si"][s] for s in case["subs"]]
+    cap = 20 * max(c0)
+    count = [0]
+
+    def fun(t, y):
+        count[0] += 1
+        if count[0] > 50000:
+            raise _TooManySteps()
+        return rhs(y)[0]
+
+    def too_big(t, y):
+        return cap - float(np.max(np.abs(y)))
+    too_big.terminal = True
+
     with warnings.catch_warnings():
         warnings.simplefilter("ignore")
-        sol = solve_ivp(lambda t, y: rhs(y)[0], (0.0, case["t_si"]), c0, method="LSODA", rtol=1e-11, atol=1e-13)
-    if not sol.success or not np.all(np.isfinite(sol.y)) or np.max(np.abs(sol.y)) > 20 * max(c0) or np.min(sol.y) < -1e-9:
+        try:
+            sol = solve_ivp(fun, (0.0, case["t_si"]), c0, method="LSODA", rtol=1e-11, atol=1e-13, t_eval=[case["t_si"]], events=too_big)
+        except _TooManySteps:
+            return None
+    if not sol.success or sol.status != 0 or sol.y.shape[1] != 1 or not np.all(np.isfinite(sol.y)):
+        return None
+    if np.max(np.abs(sol.y)) > cap or np.min(sol.y) < -1e-9:
         return None
     return sol.y[:, -1]
 
